@@ -1394,6 +1394,23 @@ theorem cty_rules_lawful_with_sets (e : Ty) (hc : D03b.capFree e = true) : (ctyR
     have := ((equals_equiv_with_sets e hc a.1 b.1 b.1 a.2 b.2 b.2).2.2.2 h).2
     simp only [ctyRulesOnDeep, ctyRules, this]
 
+/-- **The defaults of `ctyRules` are not taken on these members either** (audit item 4,
+for element types with sets): `Value.Hash` returns and `ctyRules.hash` is what it
+returns; `Equals` returns the known bool `ctyRules.equiv`; `setRules.Less` returns
+`ctyRules.less`.  So `Lawful.hash_eq` above is a statement about the real hash. -/
+theorem cty_rules_are_the_real_functions_with_sets (e : Ty) (hc : D03b.capFree e = true) (a b : DeepMember e) :
+    Value.hash ⟨e, a.1⟩ = .ok ((ctyRules e).hash a.1) ∧
+    equals ⟨e, a.1⟩ ⟨e, b.1⟩ = .ok (boolVal ((ctyRules e).equiv a.1 b.1)) ∧
+    setLess e a.1 b.1 = .ok (ctyLessB e a.1 b.1) ∧ (ctyRules e).less = some (ctyLessB e) := by
+  have wa := D03b.W.of a.2
+  have wb := D03b.W.of b.2
+  obtain ⟨bs, _, h2⟩ := (hash_with_sets e hc a.1 wa.m.1).2
+  have h3 := D03b.equals_full hc wa wb
+  refine ⟨by simp only [ctyRules, h2], ?_, (D03b.ctyLessB_enc hc wa.m.1 wb.m.1).1, rfl⟩
+  rw [h3]
+  simp only [ctyRules, h3]
+  cases D03b.R' e a.1 b.1 <;> rfl
+
 /-- **Value sets whose members contain sets refine mathematical sets** (`set_refines`,
 `set_inv` at `setRules{e}`): every history keeps the invariant, ends in the
 mathematical results and answers every call as the mathematical sets dictate. -/
